@@ -1,5 +1,8 @@
 import LinfaSpec.Proofs.Incremental
 import LinfaSpec.Proofs.IncrementalState
+import LinfaSpec.Proofs.IncrementalFull
+import LinfaSpec.Proofs.IncrementalMore
+import LinfaSpec.Proofs.IncrementalKm
 
 /-!
 # C15 — incremental fitting replays to batch fitting / its recurrence
@@ -110,18 +113,112 @@ example : (lookup 7 (gnbRun (0 : Rat) 2 [[([1, 2], 7), ([0, 0], 3)], [([3, 6], 7
 example : (lookup 7 (gnbRun (0 : Rat) 2 [[([1, 2], 7), ([0, 0], 3), ([3, 6], 7)]])).map gProj =
     some (2, [2, 4], [1, 4]) := by decide +kernel
 
-/- Full claim: prior of class c after a history = (rows of c) / (all rows).
-   Proved: the count is the number of rows of c (`gnb_replay_zero_smoothing`, first component) and
-   the prior is that count divided by the sum of the stored counts (any smoothing, any state).
-   Missing: "sum of the stored counts = number of rows fed", which needs uniqueness of the keys of
-   the association list; the oracle clause `counts_priors` checks it exactly on every case. -/
-theorem gnb_counts_priors_partial (vs : α) (p : Nat) (st : GState α) (b : Batch α) (c : Nat)
+/-- the prior written by one `fit_with` call is the class count over the sum of the stored counts
+(any state, any smoothing) -/
+theorem gnb_prior_of_stored_counts (vs : α) (p : Nat) (st : GState α) (b : Batch α) (c : Nat)
     (i : GInfo α) (h : lookup c (gnbStep vs p st b) = some i) :
     i.prior = (i.count : α) /
       (((gnbStep vs p st b).map fun ci => ci.2.count).foldl (fun (a b : Nat) => a + b) 0 : Nat) :=
   gnbStep_prior vs p st b c i h
 
-example : (lookup 7 (gnbRun (0 : Rat) 1 [[([1], 7), ([0], 3)], [([3], 7)]])).map (·.prior) = some (2 / 3) := by
+/-- **the `HashMap` invariant**: after any history the association list has no duplicate key, so
+`lookup` sees every stored entry (any smoothing) -/
+theorem gnb_keys_unique (vs : α) (p : Nat) (hist : List (Batch α)) :
+    (keys (gnbRun vs p hist)).Nodup :=
+  gnbRun_keys_nodup vs p hist
+
+/-- **the stored counts add up to the number of rows fed** (any history, any smoothing) -/
+theorem gnb_counts_sum (vs : α) (p : Nat) (hist : List (Batch α)) :
+    ((gnbRun vs p hist).map fun ci => ci.2.count).foldl (fun (a b : Nat) => a + b) 0 =
+      hist.flatten.length := by
+  rw [← gnbTotal_eq_foldl]; exact gnbRun_total vs p hist
+
+/-- batches `[0,2]` then `[0,4]` of one class, one feature (used by the examples and the counter-example) -/
+def smoothingWitness' : List (Batch Rat) := [[([0], 0), ([2], 0)], [([0], 0), ([4], 0)]]
+
+/-- **counts and priors are the class frequencies of the concatenated data**, for every history
+(any number of batches, class-incomplete batches, late classes) and every `var_smoothing`: a stored
+class holds the number of its rows, and its prior is that number over the number of all rows fed. -/
+theorem gnb_counts_priors (vs : α) (p : Nat) (hist : List (Batch α)) (c : Nat) (i : GInfo α)
+    (h : lookup c (gnbRun vs p hist) = some i) :
+    i.count = (rowsOf c hist.flatten).length ∧
+    i.prior = ((rowsOf c hist.flatten).length : α) / (hist.flatten.length : α) := by
+  have hs := gnbRun_stats_sm vs p hist c
+  rw [h] at hs
+  have hcount : i.count = (rowsOf c hist.flatten).length := by
+    simp only [gnbStatsSm] at hs
+    by_cases hd : rowsOf c hist.flatten = []
+    · simp [hd] at hs
+    · simp only [hd, if_false, Option.map_some, gProj, Option.some.injEq, Prod.mk.injEq] at hs
+      exact hs.1
+  refine ⟨hcount, ?_⟩
+  rcases List.eq_nil_or_concat hist with rfl | ⟨h', b, rfl⟩
+  · simp [gnbRun, lookup] at h
+  · simp only [List.concat_eq_append] at *
+    have e : gnbRun vs p (h' ++ [b]) = gnbStep vs p (gnbRun vs p h') b := by
+      simp [gnbRun, List.foldl_append]
+    have hp := gnbStep_prior vs p (gnbRun vs p h') b c i (by rw [← e]; exact h)
+    rw [← e, gnb_counts_sum] at hp
+    rw [hp, hcount]
+
+example : (lookup 7 (gnbRun (1 / 2 : Rat) 1 [[([1], 7), ([0], 3)], [([3], 7)]])).map (fun i => (i.count, i.prior)) =
+    some (2, 2 / 3) := by decide +kernel
+
+/-- **Gaussian NB replay through the whole model state, every `var_smoothing`** — the exact law of
+the code that exists.  After any history every class holds the count and per-feature means of its
+rows in the concatenated data, and per-feature variances
+`population variance + Σ_b epsilon_b · n_{c,b} / n_c`: the smoothing term is the mean of the
+per-batch epsilons weighted by the number of rows of the class in each batch (not the epsilon of the
+whole data, which is what the property asks for — see `gnb_var_replay_fails_with_smoothing`). -/
+theorem gnb_replay_any_smoothing (vs : α) (p : Nat) (hist : List (Batch α)) (c : Nat) :
+    (lookup c (gnbRun vs p hist)).map gProj = gnbStatsSm vs p hist c :=
+  gnbRun_stats_sm vs p hist c
+
+example : (lookup 0 (gnbRun (1 / 2 : Rat) 1 smoothingWitness')).map gProj = some (4, [3 / 2], [11 / 4 + (1 / 2 * 2 + 2 * 2) / 4]) := by
+  decide +kernel
+
+/-- **a single fit is the textbook estimate for every `var_smoothing`**: class frequencies'
+numerator, per-class means, per-class variance + `var_smoothing · max_j Var(column j of all rows)` -/
+theorem gnb_single_fit_is_textbook (vs : α) (p : Nat) (d : Batch α) (c : Nat)
+    (hc : rowsOf c d ≠ []) :
+    (lookup c (gnbRun vs p [d])).map gProj = some (gProj (gnbTextbook vs p d c)) := by
+  rw [gnbRun_stats_sm]
+  have hn : ((rowsOf c d).length : α) ≠ 0 := Nat.cast_ne_zero.mpr (by simpa using hc)
+  simp only [gnbStatsSm, List.flatten_cons, List.flatten_nil, List.append_nil, hc, if_false, gProj,
+    gnbTextbook, Option.some.injEq, Prod.mk.injEq, true_and]
+  apply List.map_congr_left
+  intro xs _
+  rw [gnbEffSum_uniform vs p [d] c (gnbEps vs p d) (by simp)]
+  simp only [List.flatten_cons, List.flatten_nil, List.append_nil]
+  field_simp
+
+/-- **incremental = batch = textbook whenever the batches share the epsilon of the whole data**
+(in particular for `var_smoothing = 0`, and for data whose dominating column has the same variance
+in every batch): every class, every history, class-incomplete batches included. -/
+theorem gnb_incremental_eq_batch_of_uniform_eps (vs : α) (p : Nat) (hist : List (Batch α)) (c : Nat)
+    (hc : rowsOf c hist.flatten ≠ [])
+    (he : ∀ b ∈ hist, gnbEps vs p b = gnbEps vs p hist.flatten) :
+    (lookup c (gnbRun vs p hist)).map gProj = some (gProj (gnbTextbook vs p hist.flatten c)) ∧
+    (lookup c (gnbRun vs p hist)).map gProj = (lookup c (gnbRun vs p [hist.flatten])).map gProj := by
+  have hn : ((rowsOf c hist.flatten).length : α) ≠ 0 := Nat.cast_ne_zero.mpr (by simpa using hc)
+  have h1 : (lookup c (gnbRun vs p hist)).map gProj = some (gProj (gnbTextbook vs p hist.flatten c)) := by
+    rw [gnbRun_stats_sm]
+    simp only [gnbStatsSm, hc, if_false, gProj, gnbTextbook, Option.some.injEq, Prod.mk.injEq, true_and]
+    apply List.map_congr_left
+    intro xs _
+    rw [gnbEffSum_uniform vs p hist c _ he]
+    field_simp
+  exact ⟨h1, by rw [h1, gnb_single_fit_is_textbook vs p hist.flatten c hc]⟩
+
+/-- the hypothesis is satisfiable with `var_smoothing > 0` and a class-incomplete batch -/
+example : ∀ b ∈ ([[([4, 0], 3), ([0, 1], 3)], [([4, 1], 7), ([0, 1], 7)]] : List (Batch Rat)),
+    gnbEps (1 / 2) 2 b = gnbEps (1 / 2) 2 [([4, 0], 3), ([0, 1], 3), ([4, 1], 7), ([0, 1], 7)] := by
+  decide +kernel
+
+/-- a history with one dominating, balanced column: both batches have epsilon `1/2 · 4`, class 3 is
+absent from the second batch -/
+example : (lookup 3 (gnbRun (1 / 2 : Rat) 2 [[([4, 0], 3), ([0, 1], 3)], [([4, 1], 7), ([0, 1], 7)]])).map gProj =
+    some (gProj (gnbTextbook (1 / 2 : Rat) 2 [([4, 0], 3), ([0, 1], 3), ([4, 1], 7), ([0, 1], 7)] 3)) := by
   decide +kernel
 
 /-- the history used by the counter-example: one class, one feature, batches `[0,2]` then `[0,4]` -/
@@ -140,6 +237,9 @@ theorem gnb_var_replay_fails_with_smoothing :
 /-- counts and priors of the same history are right (the defect is confined to sigma) -/
 example : (lookup 0 (gnbRun (1 / 2 : Rat) 1 smoothingWitness)).map (fun i => (i.count, i.prior, i.theta))
     = some (4, 1, [3 / 2]) := by decide +kernel
+
+/-- stand-in transcendental functions over `Rat`, only for the examples below -/
+instance : Transc Rat := ⟨fun x => x, fun x => x, fun x => x⟩
 
 /-! ## multinomial naive Bayes -/
 
@@ -164,6 +264,54 @@ theorem mnb_replay [Transc α] (a pr : α) (lp : List α) (p : Nat) (r1 r2 : Lis
 theorem mnb_absent_class [Transc α] (a : α) (info : MInfo α) (cols : List (List α)) :
     mnbUpdateClass a info cols 0 = (info.flogp, info.fcount) := by
   simp [mnbUpdateClass]
+
+
+/-- **multinomial NB replay through the whole model state**: after feeding any list of batches (any
+number, any sizes, classes missing from batches, classes appearing late) every class holds exactly
+the number of its rows, the per-feature sums of its rows in the concatenated data and the additively
+smoothed log-frequencies of those sums — the textbook estimate; classes never seen are absent. -/
+theorem mnb_replay_whole_state [Transc α] (a : α) (p : Nat) (hist : List (Batch α)) (c : Nat) :
+    (lookup c (mnbRun a p hist)).map mProj = mnbStats a p hist.flatten c :=
+  mnbRun_stats a p hist c
+
+example : (lookup 7 (mnbRun (1 : Rat) 2 [[([1, 2], 7), ([0, 1], 3)], [([3, 0], 7)]])).map mProj =
+    some (2, [4, 2], mnbLogProb 1 [4, 2]) := by decide +kernel
+
+/-- hence batch-by-batch fitting and one fit on the whole data give the same class statistics -/
+theorem mnb_incremental_eq_batch [Transc α] (a : α) (p : Nat) (hist : List (Batch α)) (c : Nat) :
+    (lookup c (mnbRun a p hist)).map mProj = (lookup c (mnbRun a p [hist.flatten])).map mProj := by
+  rw [mnbRun_stats, mnbRun_stats]; simp
+
+/-- the textbook record of a class is what the whole-state replay produces -/
+theorem mnb_stats_is_textbook [Transc α] (a : α) (p : Nat) (d : Batch α) (c : Nat)
+    (hc : rowsOf c d ≠ []) : mnbStats a p d c = some (mProj (mnbTextbook a p d c)) := by
+  simp [mnbStats, hc, mProj, mnbTextbook]
+
+/-- **multinomial counts and priors are the class frequencies of the concatenated data** -/
+theorem mnb_counts_priors [Transc α] (a : α) (p : Nat) (hist : List (Batch α)) (c : Nat)
+    (i : MInfo α) (h : lookup c (mnbRun a p hist) = some i) :
+    i.count = (rowsOf c hist.flatten).length ∧
+    i.prior = ((rowsOf c hist.flatten).length : α) / (hist.flatten.length : α) := by
+  have hs := mnbRun_stats a p hist c
+  rw [h] at hs
+  have hcount : i.count = (rowsOf c hist.flatten).length := by
+    simp only [mnbStats] at hs
+    by_cases hd : rowsOf c hist.flatten = []
+    · simp [hd] at hs
+    · simp only [hd, if_false, Option.map_some, mProj, Option.some.injEq, Prod.mk.injEq] at hs
+      exact hs.1
+  refine ⟨hcount, ?_⟩
+  rcases List.eq_nil_or_concat hist with rfl | ⟨h', b, rfl⟩
+  · simp [mnbRun, lookup] at h
+  · simp only [List.concat_eq_append] at *
+    have e : mnbRun a p (h' ++ [b]) = mnbStep a p (mnbRun a p h') b := by
+      simp [mnbRun, List.foldl_append]
+    have hp := mnbStep_prior a p (mnbRun a p h') b c i (by rw [← e]; exact h)
+    rw [← e, mnbRun_total] at hp
+    rw [hp, hcount]
+
+example : (lookup 7 (mnbRun (1 : Rat) 2 [[([1, 2], 7), ([0, 1], 3)], [([3, 0], 7)]])).map (fun i => (i.count, i.prior)) =
+    some (2, 2 / 3) := by decide +kernel
 
 /-! ## prediction -/
 
@@ -219,11 +367,68 @@ theorem minibatch_running_mean (xs : List α) (c0 : α) (h : xs ≠ []) :
 
 example : ([2, 4, 9] : List Rat).foldl kmTrack (100, 0) = (5, 3) := by decide +kernel
 
+
+/-- **whole-batch lifting of the running mean.**  After `compute_centroids_incremental` on a batch
+(`obs` with memberships `mem`), coordinate `j` of centroid `c` is the documented recurrence
+`count += 1; x̄ += (x − x̄)/count` run over the `j`-th coordinates of exactly the observations assigned
+to `c`, in batch order, started from the old coordinate with the old cumulative count `n`; the new
+cumulative count is `n` plus their number; equivalently new·(n + m) = old·n + Σ absorbed.
+Hypotheses = the shape invariants of the real arrays (cluster index in range, rows at least as long
+as the centroid) and that the stored count is a natural number. -/
+theorem km_batch_running_mean (c j : Nat) (st : KState α) (obs : List (List α)) (mem : List Nat)
+    (n : Nat) (hc : c < st.centroids.length) (hc' : c < st.counts.length)
+    (hn : st.counts.getD c 0 = (n : α)) (hj : j < (st.centroids.getD c []).length)
+    (hlen : ∀ xm ∈ obs.zip mem, (st.centroids.getD c []).length ≤ xm.1.length) :
+    (((kmIncr st obs mem).centroids.getD c []).getD j 0 =
+        ((coordSeq c j (obs.zip mem)).foldl kmTrack ((st.centroids.getD c []).getD j 0, n)).1) ∧
+    (kmIncr st obs mem).counts.getD c 0 = ((n + (coordSeq c j (obs.zip mem)).length : Nat) : α) ∧
+    ((kmIncr st obs mem).centroids.getD c []).getD j 0 *
+        ((n + (coordSeq c j (obs.zip mem)).length : Nat) : α) =
+      (st.centroids.getD c []).getD j 0 * (n : α) + sumS (coordSeq c j (obs.zip mem)) := by
+  obtain ⟨h1, h2⟩ := kmIncr_cluster c j (obs.zip mem) st n hc hc' hn hj hlen
+  exact ⟨h1, h2, kmIncr_cluster_sum c j (obs.zip mem) st n hc hc' hn hj hlen⟩
+
+/-- two clusters in one dimension, counts 2 and 0, a batch of three points assigned 1, 0, 1 -/
+example : (kmIncr (⟨[[4], [10]], [2, 0]⟩ : KState Rat) [[2], [7], [6]] [1, 0, 1]).centroids = [[5], [4]] ∧
+    (kmIncr (⟨[[4], [10]], [2, 0]⟩ : KState Rat) [[2], [7], [6]] [1, 0, 1]).counts = [3, 2] ∧
+    coordSeq 1 0 ([[2], [7], [6]].zip [1, 0, 1] : List (List Rat × Nat)) = [2, 6] := by decide +kernel
+
 /-- **converged is reported truthfully**: `Ok` iff the Frobenius shift of the centroids is below the tolerance -/
 theorem converged_iff_shift_lt_tol [Transc α] (tol : α) (st : KState α) (obs : List (List α)) :
     (kmStep tol st obs).2 = true ↔
       Transc.sqrt (kmShiftSq st.centroids (kmStep tol st obs).1.centroids) < tol := by
   simp [kmStep]
+
+
+/-- **any metric: the assignment is to a nearest centroid** — the distance `closest_centroid` returns
+is at most the (r)distance to every centroid (L2, L1, L-infinity) -/
+theorem km_assigns_nearest (m : Metric) (cs : List (List α)) (x : List α) (c : List α) (hc : c ∈ cs) :
+    (closestBy m cs x).2 ≤ rdistBy m c x :=
+  closestBy_le m cs x c hc
+
+example : ([1, 2] : List Rat) ∈ [[0, 0], [1, 2]] ∧
+    (closestBy .l1 [[0, 0], [1, 2]] ([1, 1] : List Rat)) = (1, 1) := by decide +kernel
+
+/-- **converged is reported truthfully for every metric**: `Ok` iff the metric's distance between the
+old and the new centroid matrix is below the tolerance -/
+theorem converged_iff_dist_lt_tol_any_metric [Transc α] (m : Metric) (tol : α) (st : KState α)
+    (obs : List (List α)) :
+    (kmStepBy m tol st obs).2.1 = true ↔
+      distBy m st.centroids.flatten (kmStepBy m tol st obs).1.centroids.flatten < tol := by
+  simp [kmStepBy]
+
+/-- the L2 instance of the metric-generic step is `kmStep` (so the theorems above apply to it) -/
+theorem km_l2_instance [Transc α] (tol : α) (st : KState α) (obs : List (List α)) :
+    ((kmStepBy .l2 tol st obs).1, (kmStepBy .l2 tol st obs).2.1) = kmStep tol st obs :=
+  kmStepBy_l2 tol st obs
+
+/-- **the `n_runs` selection of `fit_with(None, ..)` keeps an initialisation of lowest inertia** -/
+theorem km_init_picks_lowest_inertia {β : Type} (l : List (β × α)) (b : β × α)
+    (h : pickInit l = some b) : b ∈ l ∧ ∀ y ∈ l, b.2 ≤ y.2 :=
+  pickInit_spec l b h
+
+example : pickInit ([("a", 3), ("b", 1), ("c", 2), ("d", 1)] : List (String × Rat)) = some ("d", 1) := by
+  decide +kernel
 
 /-! ## FTRL-proximal -/
 
@@ -250,6 +455,13 @@ theorem ftrl_zero_of_le [Transc α] (hp : FtrlHp α) (z n : α) (h : |z| ≤ hp.
   · have : z * 1 ≤ hp.l1 := by rw [abs_of_nonneg (not_lt.mp hz)] at h; linarith
     simp only [hz, ↓reduceIte, this]
 
+/-- the same for the weight vector of any state (in particular the state after any history,
+`ftrlRun`): coordinate `j` of `get_weights` is exactly zero wherever `|z_j| ≤ l1` -/
+theorem ftrl_weights_zero_wherever_le [Transc α] (hp : FtrlHp α) (st : FState α) (j : Nat) (z n : α)
+    (hz : st.z[j]? = some z) (hn : st.n[j]? = some n) (h : |z| ≤ hp.l1) :
+    (ftrlWeights hp st)[j]? = some 0 := by
+  simp [ftrlWeights, List.getElem?_zipWith, hz, hn, ftrl_zero_of_le hp z n h]
+
 /-- and only there, as soon as the denominator `(√n + β)/α + l2` of the closed form is non-zero -/
 theorem ftrl_zero_iff [Transc α] (hp : FtrlHp α) (z n : α)
     (hden : (Transc.sqrt n + hp.beta) / hp.alpha + hp.l2 ≠ 0) :
@@ -273,10 +485,19 @@ theorem ftrl_zero_iff [Transc α] (hp : FtrlHp α) (z n : α)
     · linarith
     · exact hden h
 
-instance : Transc Rat := ⟨fun x => x, fun x => x, fun x => x⟩  -- only for the examples below
+
+/-- **the sigmoid is clamped**: beyond `±max_abs` the predicted probability no longer depends on the logit -/
+theorem ftrl_sigmoid_clamped [Transc α] (m v : α) (hm : 0 ≤ m) :
+    (m ≤ v → sigmoid m v = sigmoid m m) ∧ (v ≤ -m → sigmoid m v = sigmoid m (-m)) :=
+  ⟨sigmoid_clamp_hi m v hm, sigmoid_clamp_lo m v hm⟩
+
+example : (0 : Rat) ≤ 35 ∧ sigmoid (35 : Rat) 100 = sigmoid 35 35 ∧ sigmoid (35 : Rat) (-100) = sigmoid 35 (-35) := by
+  decide +kernel
+
 
 example : ftrlWeight (⟨1, 1, 1 / 2, 1⟩ : FtrlHp Rat) (-1 / 2) 4 = 0 := by decide +kernel
 example : ftrlWeight (⟨1, 1, 1 / 2, 1⟩ : FtrlHp Rat) (3 / 2) 4 ≠ 0 := by decide +kernel
+example : ftrlWeights (⟨1, 1, 1 / 2, 1⟩ : FtrlHp Rat) ⟨[-1 / 2, 3 / 2, 1 / 4], [4, 4, 0]⟩ = [0, -1 / 6, 0] := by decide +kernel
 
 end Field
 
